@@ -110,7 +110,7 @@ var (
 	reClause    = regexp.MustCompile(`^//@\s*(.*)$`)
 	reCont      = regexp.MustCompile(`^//@\|\s*(.*)$`)
 	reLabel     = regexp.MustCompile(`^([A-Za-z_][A-Za-z0-9_.\-]*):\s+(.*)$`)
-	reSig       = regexp.MustCompile(`^([A-Za-z_][A-Za-z0-9_]*)\s*\(([^)]*)\)\s*([A-Za-z_][A-Za-z0-9_]*)?\s*(=\s*(.*))?$`)
+	reSig       = regexp.MustCompile(`^([A-Za-z_][A-Za-z0-9_]*)\s*\(([^)]*)\)\s*([A-Za-z_*\[\]][A-Za-z0-9_.*\[\]]*)?\s*(=\s*(.*))?$`)
 )
 
 // loadContractFile parses one contract file. pkgPath is the import path of
@@ -369,6 +369,8 @@ func (cs *ContractSet) addClause(c *FuncContract, text, where string) error {
 		c.Trusted = true
 	case "maypanic":
 		c.MayPanic = true
+	case "nilrecv":
+		c.NoNilRecv = true
 	case "results":
 		c.Results = strings.Fields(strings.ReplaceAll(rest, ",", " "))
 	case "props":
